@@ -2,14 +2,17 @@
    Pinned statements only; proofs live in Fold/FoldProofs.v.  Models: Fold/FoldModel.v (number.rs
    string_arithmetic / negate / literal widening, math_expr.rs try_constexpr_eval) and Num/NumImpl.v (the
    run-time operators).  [FixedF] / [Fixed] = the code with fixes/fold-negate.diff and
-   fixes/num-overflow-panics-in-every-build.diff, fixes/num-byte-zero-divisor.diff and
-   fixes/num-rem-min-by-minus-one.diff applied.
+   fixes/num-overflow-panics-in-every-build.diff, fixes/num-byte-zero-divisor.diff,
+   fixes/num-rem-min-by-minus-one.diff and fixes/num-shl-lost-bits.diff applied; [parsed] = the literals the
+   parser produces with fixes/literal-kind-decided-once.diff.
 
    Full statement (property C06): a literal expression is evaluated by the compiler to the identical value
    and kind its run-time evaluation yields, and is rejected exactly when run-time evaluation would fail.
    Proved at full strength for ALL literal trees (any depth, any literal values) over the ten folded binary
    operators + - * / % << >> & | xor, unary minus and `!` (C06_fold_agrees and its three corollaries).
-   Trees containing a comparison are not folded by design (FNot): nothing to prove.
+   A tree with a comparison at the root is not folded by design (FNot); it is compiled as written, and
+   evaluates exactly like the same tree over variables (C06_inline_agrees) -- which the ORIGINAL parser
+   violated for an integer literal beyond 32 bits (orig_oversized_literal_refuted: `3000000000 < 5`).
    `get`, `or`, lists and parentheses are transparent for folding (parentheses are not even in the AST);
    they are covered by the differential check (vlib/c06.py), not by this theorem:  ..._partial in that sense
    only.  Kept visible:
@@ -39,6 +42,26 @@ Check fold_failure_not_folded : forall e c, source e ->
 Theorem C06_failure_not_folded : forall e c, source e ->
   is_failure (eval_rt Fixed e) -> fold FixedF e <> FVal c.
 Proof. exact fold_failure_not_folded. Qed.
+
+(* a literal tree the folder leaves alone is compiled as written: same value, same failure as over variables *)
+Check inline_agrees : forall v e, source e -> parsed e -> eval_inline v e = eval_rt v e.
+Theorem C06_inline_agrees : forall v e, source e -> parsed e -> eval_inline v e = eval_rt v e.
+Proof. exact inline_agrees. Qed.
+(* ... the leaves of the fixed parser are [parsed], and the folder sees what it saw before *)
+Check literal_int_parsed : forall z n, literal_int z = Some n -> parsed (ENum n).
+Check fold_leaf_literal_int : forall z n, (0 <= z)%Z -> literal_int z = Some n ->
+  fold_leaf n = fold_leaf (NInteger (Src z)).
+(* ... the original parser's leaf was not: accepted, not folded, dies in make_int; over variables: false *)
+Check orig_oversized_literal_refuted : forall v,
+  source e_big_cmp /\ fold FixedF e_big_cmp = FNot /\ fold OrigF e_big_cmp = FNot /\
+  eval_inline v e_big_cmp = Err /\ eval_rt v e_big_cmp = Ok (Bool false) /\
+  (exists n, literal_int 3000000000 = Some n /\
+             eval_inline v (EBin (Cmp CLt) (ENum n) (ENum (NInteger (Src 5)))) = Ok (Bool false)).
+(* `<<` was changed in the folder and at run time together (C05: a left shift that loses a bit fails) *)
+Check shl_changed_together : forall m,
+  source e_shl /\ fold FixedF e_shl = FErr /\ eval_rt Fixed e_shl = Err /\
+  fold OrigF e_shl = FVal (CNum (NInteger (Dec (-2147483648)))) /\
+  eval_rt (Orig m) e_shl = Ok (Int (-2147483648)).
 
 (* the original folder really disagreed (DESIGN F5), witnesses reproduced on the real binary *)
 Check orig_neg_bigint_refuted : forall m,
@@ -78,3 +101,4 @@ Print Assumptions C06_fold_agrees.
 Print Assumptions C06_fold_value.
 Print Assumptions C06_fold_reject.
 Print Assumptions C06_failure_not_folded.
+Print Assumptions C06_inline_agrees.
